@@ -146,6 +146,11 @@ func viaArg(v ssa.Value, via *ssa.Call) ssa.Value {
 		}
 	}
 	f := via.Call.StaticCallee()
+	if f == nil {
+		if mc, isMC := via.Call.Value.(*ssa.MakeClosure); isMC {
+			f, _ = mc.Fn.(*ssa.Function)
+		}
+	}
 	if f == nil || p.Parent() != f {
 		return v
 	}
